@@ -25,6 +25,7 @@ type c17World struct {
 	seq    int
 	keyset []string
 	kinds  []sim.Kind
+	idseed uint64
 }
 
 func newC17World(idseed uint64, kinds []sim.Kind) (*c17World, error) {
@@ -37,15 +38,16 @@ func newC17World(idseed uint64, kinds []sim.Kind) (*c17World, error) {
 		return nil, err
 	}
 	l1Seq++
-	cw := &c17World{env: env, seq: l1Seq, kinds: kinds}
+	cw := &c17World{env: env, seq: l1Seq, kinds: kinds, idseed: idseed}
 	for i := range kinds {
-		cw.keyset = append(cw.keyset, fmt.Sprintf("k%d_%d", l1Seq, i))
+		cw.keyset = append(cw.keyset, fmt.Sprintf("k%d_%d", l1Seq, i)+l1NameSuffix(idseed/7+uint64(i), false))
 	}
 	return cw, nil
 }
 
 func (cw *c17World) addCollection() (*l1World, error) {
-	name := fmt.Sprintf("c%d_%d", cw.seq, len(cw.cols))
+	// (names vary with the drawn id seed, see l1NameSuffix; one collection is a prefix of another's name)
+	name := fmt.Sprintf("c%d_%d", cw.seq, len(cw.cols)) + l1NameSuffix(cw.idseed/13+uint64(len(cw.cols)), true)
 	if err := cw.env.CreateCollection(name); err != nil {
 		return nil, err
 	}
